@@ -15,8 +15,8 @@ variable {K : Type} [Field K] [CharZero K]
 
 /-- `InForm cs c`: the 6×6 array `c` (row-major) is in the general normal form of the crystal system `cs` — the
     array one of atomman's crystal-system constructors builds from independent constants: 3 cubic, 5 hexagonal
-    (`C66 = (C11 - C12)/2`), 7 tetragonal (`C16 = -C26`), 7 rhombohedral (`C14`, `C15`), 9 orthorhombic; any 36
-    entries for triclinic. -/
+    (`C66 = (C11 - C12)/2`), 7 tetragonal (`C16 = -C26`), 7 rhombohedral (`C14`, `C15`), 9 orthorhombic, 13
+    monoclinic (`C15`, `C25`, `C35`, `C46`); any 36 entries for triclinic. -/
 inductive InForm : String → List K → Prop
   | triclinic (c : List K) (h : c.length = 36) : InForm "triclinic" c
   | cubic (c11 c12 c44 : K) : InForm "cubic" (cubicForm c11 c12 c44)
@@ -26,6 +26,8 @@ inductive InForm : String → List K → Prop
       InForm "rhombohedral" (rhomboForm c11 c33 c12 c13 c14 c15 c44)
   | orthorhombic (c11 c22 c33 c12 c13 c23 c44 c55 c66 : K) :
       InForm "orthorhombic" (orthoForm c11 c22 c33 c12 c13 c23 c44 c55 c66)
+  | monoclinic (c11 c12 c13 c15 c22 c23 c25 c33 c35 c44 c46 c55 c66 : K) :
+      InForm "monoclinic" (monoForm c11 c12 c13 c15 c22 c23 c25 c33 c35 c44 c46 c55 c66)
 
 macro "form_tac" : tactic => `(tactic| (
   simp
@@ -60,6 +62,12 @@ theorem normForm_ortho (muK : Option (K × K)) (c11 c22 c33 c12 c13 c23 c44 c55 
   simp only [normForm, orthoForm]
   form_tac
 
+theorem normForm_mono (muK : Option (K × K)) (c11 c12 c13 c15 c22 c23 c25 c33 c35 c44 c46 c55 c66 : K) :
+    normForm muK "monoclinic" (monoForm c11 c12 c13 c15 c22 c23 c25 c33 c35 c44 c46 c55 c66)
+      = some (monoForm c11 c12 c13 c15 c22 c23 c25 c33 c35 c44 c46 c55 c66) := by
+  simp only [normForm, monoForm]
+  form_tac
+
 theorem normForm_tri (muK : Option (K × K)) (c : List K) (h : c.length = 36) :
     normForm muK "triclinic" c = some c := by
   iterate 36 (rcases c with _ | ⟨_, c⟩; · simp at h)
@@ -77,6 +85,7 @@ theorem normForm_fix (muK : Option (K × K)) (cs : String) (c : List K) (h : InF
   | tetragonal => exact normForm_tetra muK ..
   | rhombohedral => exact normForm_rhombo muK ..
   | orthorhombic => exact normForm_ortho muK ..
+  | monoclinic => exact normForm_mono muK ..
 
 /-- whatever `normalized_as(cs)` hands to the `Cij` setter is in the normal form of `cs` (every system whose
     constants are averages of the entries; `'isotropic'` goes through the Hill estimates). -/
@@ -87,7 +96,8 @@ theorem normForm_inForm (muK : Option (K × K)) (cs : String) (c n : List K) (hc
   · split_ifs at h <;>
       (cases h; subst_vars
        first | exact InForm.triclinic _ rfl | exact InForm.cubic .. | exact InForm.hexagonal ..
-             | exact InForm.tetragonal .. | exact InForm.rhombohedral .. | exact InForm.orthorhombic ..)
+             | exact InForm.tetragonal .. | exact InForm.rhombohedral .. | exact InForm.orthorhombic ..
+             | exact InForm.monoclinic ..)
   · cases h
 
 /-- the `'isotropic'` branch: the two Hill estimates through the isotropic constructor. -/
